@@ -6,6 +6,7 @@ import (
 	"fmt"
 	"os"
 	"path/filepath"
+	"regexp"
 	"sort"
 	"strconv"
 	"strings"
@@ -23,6 +24,8 @@ func main() {
 		os.Exit(cmdCheck(os.Args[2:]))
 	case "dump":
 		os.Exit(cmdDump(os.Args[2:]))
+	case "anchors":
+		os.Exit(cmdAnchors(os.Args[2:]))
 	default:
 		fmt.Fprintln(os.Stderr, "unknown command", os.Args[1])
 		os.Exit(2)
@@ -301,4 +304,71 @@ func isKnownName(verif, prop, name string) bool {
 		}
 	}
 	return false
+}
+
+// cmdAnchors (development): writes, into the contract files, the anchor of the site each cut-point
+// assertion currently denotes by its ordinal: `assert at return#3: e` -> `assert at return#3@1a2b3c4d.1: e`.
+func cmdAnchors(args []string) int {
+	fs := flag.NewFlagSet("anchors", flag.ExitOnError)
+	repo := fs.String("repo", envOr("VERIF_REPO", "/repo"), "")
+	verif := fs.String("verif", envOr("VERIF_HOME", "/verif"), "")
+	fs.Parse(args)
+	w, err := LoadWorld(*repo, []string{"./..."}, filepath.Join(*verif, "specs"))
+	if err != nil {
+		fmt.Fprintln(os.Stderr, err)
+		return 2
+	}
+	e := w.NewEnc()
+	edits := map[string]map[int]string{} // file -> line -> new text
+	n := 0
+	for _, k := range sortedKeys(w.ct.Funcs) {
+		c := w.ct.Funcs[k]
+		fn := w.funcs[c.Key]
+		if !c.InRepo || fn == nil || fn.Blocks == nil {
+			continue
+		}
+		for _, ca := range c.Asserts {
+			sites := e.cutSites(fn, ca.Kind, ca.Callee)
+			if ca.N < 1 || ca.N > len(sites) {
+				fmt.Fprintf(os.Stderr, "%s:%d: no site #%d\n", ca.Clause.File, ca.Clause.Line, ca.N)
+				continue
+			}
+			anchor := e.siteAnchors(sites)[ca.N-1]
+			if anchor == "" || anchor == ca.Anchor {
+				continue
+			}
+			b, err := os.ReadFile(ca.Clause.File)
+			if err != nil {
+				continue
+			}
+			lines := strings.Split(string(b), "\n")
+			if ca.Clause.Line < 1 || ca.Clause.Line > len(lines) {
+				continue
+			}
+			if edits[ca.Clause.File] == nil {
+				edits[ca.Clause.File] = map[int]string{}
+			}
+			line := lines[ca.Clause.Line-1]
+			if t, ok := edits[ca.Clause.File][ca.Clause.Line]; ok {
+				line = t
+			}
+			re := regexp.MustCompile(`#` + strconv.Itoa(ca.N) + `(@[0-9a-f.]+)?:`)
+			loc := re.FindStringIndex(line)
+			if loc == nil {
+				continue
+			}
+			edits[ca.Clause.File][ca.Clause.Line] = line[:loc[0]] + "#" + strconv.Itoa(ca.N) + "@" + anchor + ":" + line[loc[1]:]
+			n++
+		}
+	}
+	for file, m := range edits {
+		b, _ := os.ReadFile(file)
+		lines := strings.Split(string(b), "\n")
+		for ln, t := range m {
+			lines[ln-1] = t
+		}
+		os.WriteFile(file, []byte(strings.Join(lines, "\n")), 0o644)
+	}
+	fmt.Printf("anchors written: %d\n", n)
+	return 0
 }
